@@ -52,8 +52,9 @@
 (*   KeyDecode    "asfound" | "strict" onNewEonKey refuses bytes that are  *)
 (*                                     not the canonical encoding of a G2  *)
 (*                                     point other than infinity           *)
-(*   IntRule      "trunc" | "checked"  onNewKeyperSet refuses values that  *)
-(*                                     do not fit int64 / int32            *)
+(*   IntRule      "trunc" | "clamp"    onNewKeyperSet stores MaxInt32 for  *)
+(*                                     a threshold that does not fit int32 *)
+(*                                     (no message can meet it)            *)
 (***************************************************************************)
 EXTENDS Integers, Sequences, FiniteSets, TLC
 
@@ -61,7 +62,8 @@ CONSTANTS
     AllEons, HugeEons,
     N, T,              \* size of the member lists "A" and "B", the threshold "t"
     MaxKeys,           \* config.MaxNumKeysPerMessage
-    StoreRule, KeyStoreRule, MissRule, KeyDecode, IntRule
+    StoreRule, KeyStoreRule, MissRule, KeyDecode, IntRule,
+    EonOf, EmptyKey    \* chain-sync client alternatives (see the last section)
 
 GoodKeys == {"KA", "KB"}
 Lists == {"A", "B"}
@@ -78,9 +80,9 @@ MinOf(S) == CHOOSE x \in S : \A y \in S : x <= y
 R(v, w) == [v |-> v, w |-> w]
 
 (* ------------------------------- node.go ------------------------------- *)
-Thr32(thr) == CASE thr = "w0" -> "0" [] thr = "wt" -> "t" [] OTHER -> thr     \* int32(keyperSet.Threshold)
+Thr32(thr) == IF IntRule = "clamp" /\ thr \in {"w0", "wt", "neg"} THEN "max"
+              ELSE CASE thr = "w0" -> "0" [] thr = "wt" -> "t" [] OTHER -> thr   \* int32(keyperSet.Threshold)
 Act64(act) == IF act = "hi" THEN "neg" ELSE act                               \* int64(keyperSet.ActivationBlock)
-FitsInts(ev) == ev.thr \in {"t", "0"} /\ ev.act = "lo" /\ ev.e \notin HugeEons
 
 (* storage.go *)
 AddKeyperSet(st, e, ks) ==
@@ -89,9 +91,8 @@ AddEonKey(st, e, k) ==
     IF KeyStoreRule = "first" /\ st[e].key # "-" THEN st ELSE [st EXCEPT ![e].key = k]
 
 OnNewKeyperSet(st, ev) ==
-    IF IntRule = "checked" /\ ~FitsInts(ev) THEN [st |-> st, out |-> "refused"]
-    ELSE [st  |-> AddKeyperSet(st, ev.e, [mem |-> ev.mem, thr |-> Thr32(ev.thr), act |-> Act64(ev.act), idx |-> "eq"]),
-          out |-> "stored"]
+    [st  |-> AddKeyperSet(st, ev.e, [mem |-> ev.mem, thr |-> Thr32(ev.thr), act |-> Act64(ev.act), idx |-> "eq"]),
+     out |-> "stored"]
 
 (* key.Unmarshal(eonKey.Key) *)
 DecodeKey(k) ==
@@ -178,4 +179,54 @@ CombinedValidate(st, m) ==
 
 (* HandleMessage returns (nil, nil): the node itself publishes nothing *)
 Published(st, m) == 0
+
+(* ------------- medley/chainsync as Start composes it with the node -------------- *)
+(* What the REAL chain-sync client hands to the two handlers on a LINEAR chain (no reorg, no RPC
+   fault -- those are the OpSync stage's business, specs/OpSync.tla).  A chain is the sequence of
+   contract events, event i in block i; block 0 holds the genesis keyper set (index 0, no members,
+   threshold 0, activation 0).
+     [t |-> "add", mem, thr, act, idx |-> 0, key |-> "-"]   KeyperSetManager.addKeyperSet (index = number of sets so far)
+     [t |-> "bc",  mem |-> "-", thr |-> "-", act |-> 0, idx, key]   KeyBroadcastContract.broadcastEonKey
+   Client.Start = KeyperSetSyncer.Start (initial poll at the start block S: the set active at S and
+   every later one, each through newEvent; then the subscription) followed by EonPubKeySyncer.Start
+   (getInitialPubKeys: GetEonKey for the eons IndexByBlock(S) .. numKeyperSets-1 -- an eon WITHOUT
+   key yields EMPTY bytes, no error -- then the subscription).  newEvent does not use the index of
+   the event: it asks getKeyperSetIndexByBlock(activationBlock) at the block it reads (EonOf =
+   "recompute"; "event" = named alternative).  EmptyKey "deliver" (as found) | "skip". *)
+GenesisSet == [mem |-> "E", thr |-> "0", act |-> 0]
+ChAdd(mem, thr, act) == [t |-> "add", mem |-> mem, thr |-> thr, act |-> act, idx |-> 0, key |-> "-"]
+ChBc(idx, key) == [t |-> "bc", mem |-> "-", thr |-> "-", act |-> 0, idx |-> idx, key |-> key]
+SetOf(c) == [mem |-> c.mem, thr |-> c.thr, act |-> c.act]
+RECURSIVE SetsAt(_, _)
+SetsAt(ch, b) == IF b = 0 THEN <<GenesisSet>>
+                 ELSE IF ch[b].t = "add" THEN Append(SetsAt(ch, b - 1), SetOf(ch[b])) ELSE SetsAt(ch, b - 1)
+KeyAt(ch, b, i) == LET bs == {x \in 1..b : ch[x].t = "bc" /\ ch[x].idx = i} IN
+                   IF bs = {} THEN "empty" ELSE ch[MinOf(bs)].key
+(* getKeyperSetIndexByBlock(n): the LAST set whose activation block is <= n *)
+IndexByBlock(sets, n) == (CHOOSE i \in 1..Len(sets) : sets[i].act <= n /\ \A j \in (i + 1)..Len(sets) : sets[j].act > n) - 1
+(* what the contracts accept as event of block Len(ch) + 1 *)
+ChainAccepts(ch, c) ==
+    LET sets == SetsAt(ch, Len(ch)) IN
+    IF c.t = "add"
+    THEN /\ ~\E i \in 1..Len(sets) : sets[i].mem = c.mem
+         /\ c.act >= sets[Len(sets)].act /\ c.act >= Len(ch) + 2
+    ELSE c.idx < Len(sets) /\ KeyAt(ch, Len(ch), c.idx) = "empty" /\ c.key # "empty"
+
+EonTok(i) == "e" \o ToString(i)
+(* KeyperSetSyncer.newEvent reading the contracts at block b, own = the set's real index *)
+KsEvent(ch, b, set, own) ==
+    KsEv(EonTok(IF EonOf = "recompute" THEN IndexByBlock(SetsAt(ch, b), set.act) ELSE own), set.mem, set.thr, ToString(set.act))
+InitialKs(ch, S) ==
+    LET sets == SetsAt(ch, S)
+        i0 == IndexByBlock(sets, S) IN
+    [k \in 1..(Len(sets) - i0) |-> KsEvent(ch, S, sets[i0 + k], i0 + k - 1)]
+InitialEk(ch, S) ==
+    LET sets == SetsAt(ch, S)
+        i0 == IndexByBlock(sets, S)
+        all == [k \in 1..(Len(sets) - i0) |-> EkEv(EonTok(i0 + k - 1), KeyAt(ch, S, i0 + k - 1))] IN
+    IF EmptyKey = "skip" THEN SelectSeq(all, LAMBDA e : e.key # "empty") ELSE all
+LogEvent(ch, b) ==
+    IF ch[b].t = "add" THEN KsEvent(ch, b, SetOf(ch[b]), Len(SetsAt(ch, b)) - 1) ELSE EkEv(EonTok(ch[b].idx), ch[b].key)
+(* the handler calls of a client started at block S on a chain that then grows to its full length *)
+ClientEvents(ch, S) == InitialKs(ch, S) \o InitialEk(ch, S) \o [k \in 1..(Len(ch) - S) |-> LogEvent(ch, S + k)]
 =============================================================================
